@@ -29,6 +29,8 @@ def shards(tier, seed):
     for kind in ("GaussianPDF", "GaussianDiagPDF"):
         for D in BOUNDS[tier]["D"]:
             out.append(dict(id="C13/pdf/%s/D%d" % (kind, D), part="pdf", kind=kind, D=D, cost=D, facts=dict(kind=kind, D=D)))
+        if tier == "quick":
+            out.append(dict(id="C13/pdf/%s/D5.large" % kind, part="pdf", kind=kind, D=5, large=True, cost=8, facts=dict(kind=kind, D=5)))
     for s in _affine.make_shards(tier, seed, "C13"):
         s["part"] = "cond"
         out.append(s)
@@ -47,7 +49,7 @@ def run_pdf(shard, ctx):
     kind, D = shard["kind"], shard["D"]
     diag = "Diag" in kind
     vis = [0, 1, 2, 100, objs.HARD] if tier == "quick" else [0, 1, 2, 3, 4, 5, 100, 101, 102, objs.HARD]
-    for R in BOUNDS[tier]["R"]:
+    for R in (BOUNDS[tier]["R"] if not shard.get("large") else [5]):
         for vi in vis:
             tag = ("c13", kind, D, R)
             Sp = objs.spd_batch(D, R, vi, seed, tag + ("p",), diag=diag)
